@@ -25,14 +25,24 @@ META = {
             "writes to rule[...], ACL objects and config objects reused across jobs, repeated jobs) run in ONE process "
             "and each job alone in a FRESH process; deep snapshots of old, new, the compiled rulebook and the static "
             "part of the ACLs before/after every call; Coq evaluates P_C20 on these observations and the agreement of "
-            "the store model with the real results and rule dictionaries.",
+            "the store model with the real results and rule dictionaries.  Targeted sequence families besides the random "
+            "ones (harness/props/c20_families.py; all judged by the same P_C20, i.e. each job against the same job in a "
+            "fresh process): model strings that differ only in case/spacing for every hardware flag the shipped templates "
+            "branch on, with configs instantiating the rules inside the `%if hw...` blocks; one ACL text used by vendors "
+            "that share a reverse prefix (A, B, A again) with `inactive:` rows on the path of a change; jobs with a "
+            "non-empty RefTracker; jobs whose patch generation raises half-way (with references) followed by healthy "
+            "jobs on the same rulebook.",
     "technique": "Coq frame/induction proof over an explicit store with generated call-site flags; vm_compute check of "
                  "history independence and snapshots on real one-process vs fresh-process runs",
     "note": "partial: aliasing is represented in the model only at the call sites the translator knows (make_diff, "
             "apply_diff_rb, _select_match, make_patch, _find_acl_matches, the compile caches) and for the rule fields "
             "the repository's logic functions write (reverse, force_commit, comment); an alias introduced elsewhere, or "
             "state kept by vendor logic/diff_logic functions, is visible only to the correspondence run. The model "
-            "covers the plain rule language and the common logics plus the three rule-writing logics of the repository.",
+            "covers the plain rule language and the common logics plus the three rule-writing logics of the repository. "
+            "Not in the store model (correspondence only): the RefTracker / Orderer.ref_insert path of patch_from_pre, the "
+            "provider cache keyed by HardwareView, the vendor stamp of compiled ACLs and Juniper's `inactive:` "
+            "normalisation - jobs of the targeted families that use them carry no model job and are judged by P_C20 on "
+            "the real outputs only.",
 }
 IMPORTS = P.PIPE_IMPORTS + "\nFrom Annet Require Import Model.Frame Spec.P_C20."
 
@@ -245,7 +255,7 @@ def gen_sequence(rng, corpus, kind):
 
 def payload_job(j) -> dict:
     return {k: j.get(k) for k in ("kind", "vendor", "hw", "patching", "ordering", "acl", "facl", "old", "new",
-                                  "old_id", "new_id", "add_comments")}
+                                  "old_id", "new_id", "add_comments", "refs")}
 
 
 # ------------------------------------------------------------------ Coq printers
@@ -450,6 +460,16 @@ def correspondence(ctx, proof_ok=True):
             a["acl"] = None
             b = gen_shipped_job(rng, corpus, ids, sample=rng.choice([x for x in corpus if x["hw"] == smp["hw"]]))
             seqs.append([a, dict(a), b, dict(a, add_comments=not a["add_comments"])])
+    # targeted families (harness/props/c20_families.py): re-spelt model strings on the `%if hw...` branches of the shipped
+    # templates, one ACL text used by vendors sharing a reverse prefix (with `inactive:` rows), jobs with a non-empty
+    # RefTracker, jobs that raise half-way followed by healthy jobs
+    from . import c20_families
+    fam_seqs, fam_info = c20_families.build(ctx, ctx.rng("c20fam"), corpus, gen_rulebook, gen_synth_job)
+    # interleave (pure reordering): the sequences the store model evaluates are the expensive ones for Coq, spread them
+    # over all case files
+    import itertools
+    seqs = [x for pair in itertools.zip_longest(seqs, fam_seqs) for x in pair if x is not None]
+    ctx.coverage["targeted_families"] = fam_info
     import time
     t0 = time.time()
     outs = run_sequences(ctx, seqs, "seqs", spawn=2)
@@ -469,9 +489,12 @@ def correspondence(ctx, proof_ok=True):
             small, out_small = shrink(ctx, seqs[i], cl, imp_fr) if len(reported) <= 3 else (seqs[i], None)
             out_small = out_small or outs[i]
             k = first_bad_job(small, out_small, cl)
+            fam = seqs[i][0].get("family")
             ctx.add_violation(core.Violation(
-                signature=sig, what=what + (f" (job {k + 1} of {len(small)})" if k is not None else ""),
-                replay={"clause": cl, "jobs": [payload_job(j) for j in small], "impl": out_small, "failing_job": k}))
+                signature=sig, what=what + (f" (job {k + 1} of {len(small)})" if k is not None else "") +
+                (f" [sequence family: {fam}]" if fam else ""),
+                replay={"clause": cl, "jobs": [payload_job(j) for j in small], "impl": out_small, "failing_job": k,
+                        "family": fam}))
     if not res["holds"]:
         for lab, what in (("agree", "the store model (Model/Frame.v with the call-site flags of the current source) and the real "
                                     "code differ on a job's result, on old/new after the call or on the rule dictionaries"),
@@ -486,7 +509,9 @@ def correspondence(ctx, proof_ok=True):
     # coverage
     seen, nt = set(), 0
     hist = {"jobs": 0, "synth": 0, "shipped": 0, "with_acl": 0, "with_filter_acl": 0, "repeated": 0, "writer_logic_jobs": 0,
-            "assertion_errors": 0, "add_comments": 0}
+            "assertion_errors": 0, "add_comments": 0, "with_references": 0, "raised": 0, "raised_with_references": 0,
+            "healthy_after_a_raising_job_with_references": 0, "inactive_rows": 0}
+    fam_hist = {}
     lens, vend, wl = {}, {}, {}
 
     def writers_in(rules):
@@ -502,7 +527,16 @@ def correspondence(ctx, proof_ok=True):
         keys = set()
         shared_rb = False
         nonempty = 0
+        fam_hist[s[0].get("family") or "random"] = fam_hist.get(s[0].get("family") or "random", 0) + 1
+        poisoned = False
         for j, o in zip(s, outs[i]["jobs"]):
+            rr = o["seq"]["result"]
+            hist["with_references"] += bool(j.get("refs"))
+            hist["raised"] += bool(rr.get("err"))
+            hist["raised_with_references"] += bool(rr.get("err")) and bool(j.get("refs"))
+            hist["healthy_after_a_raising_job_with_references"] += poisoned and not rr.get("err")
+            poisoned |= bool(rr.get("err")) and bool(j.get("refs"))
+            hist["inactive_rows"] += any(str(r).startswith("inactive: ") for r in list(j["old"]) + list(j["new"]))
             hist["jobs"] += 1
             hist[j["kind"]] += 1
             hist["with_acl"] += j["acl"] is not None
@@ -512,7 +546,7 @@ def correspondence(ctx, proof_ok=True):
             k = (j["kind"], j.get("patching") or j.get("hw"))
             shared_rb |= k in keys
             keys.add(k)
-            if j["kind"] == "synth":
+            if j["kind"] == "synth" and "rb" in j:
                 ws = writers_in(j["rb"]["rules"])
                 hist["writer_logic_jobs"] += bool(ws)
                 for w in set(ws):
@@ -534,10 +568,10 @@ def correspondence(ctx, proof_ok=True):
         "rule": "sequences of 2-6 jobs; distinct by the whole sequence; non-trivial = at least two jobs of the sequence share "
                 "a compiled rulebook object and at least two jobs produce a non-empty patch",
         "samples": [{"jobs": [payload_job(j) for j in seqs[i]][:2]} for i in good[:1]],
-        "traces_validated_against_impl": sum(1 for i in good for j in seqs[i] if j["kind"] == "synth"),
+        "traces_validated_against_impl": sum(1 for i in good for j in seqs[i] if j["kind"] == "synth" and "rb" in j),
         "disagreements_checked": len(res["agree"]) + len(res["cells_compile"]) + len(res["conservative"]),
         "fresh_process_runs": hist["jobs"], "fresh_interpreter_runs": sum(1 for i in good for o in outs[i]["jobs"] if "fresh_spawn" in o),
-        "sequence_length_histogram": lens, "vendor_histogram": vend, "job_histogram": hist, "writer_logic_histogram": wl,
+        "sequence_family_histogram": fam_hist, "sequence_length_histogram": lens, "vendor_histogram": vend, "job_histogram": hist, "writer_logic_histogram": wl,
         "shipped_corpus_samples": len(corpus),
     })
     ctx.assumptions += [
